@@ -23,6 +23,17 @@ def gen(rng, tier, no, wide=False):
     if force["two_threads"] and force["nsteps"] > 0 and rng.random() < 0.6:
         force["bwd"] = True
     case = G.gen_case(rng, **force)
+    if rng.random() < 0.25:
+        # a further host thread (a data-loader / worker thread) whose id is the largest of the rank
+        for r, ev in case["ranks"].items():
+            xs = [e for e in ev if e.get("ph") == "X" and "dur" in e and "stream" not in (e.get("args") or {})]
+            if not xs:
+                continue
+            t0 = min(e["ts"] for e in xs)
+            g = case["cfg"]["grid"]
+            tid = 10 * max(int(e["tid"]) for e in xs if isinstance(e.get("tid"), int)) + 7
+            ev.insert(rng.randint(1, len(ev)), {"ph": "X", "cat": "cpu_op", "name": "worker::fetch", "pid": xs[0]["pid"], "tid": tid, "ts": t0 + g, "dur": 6 * g})
+            ev.insert(rng.randint(1, len(ev)), {"ph": "X", "cat": "cpu_op", "name": "worker::decode", "pid": xs[0]["pid"], "tid": tid, "ts": t0 + 2 * g, "dur": 2 * g})
     case["params"] = {"include_last": rng.random() < 0.7}
     return case
 
